@@ -116,7 +116,27 @@ def run_phase(d, vcf, inputs, *, reference=None, tag="PS", out_name="out.vcf", t
             os.environ.pop("WHATSHAP_VERIF_TRACE", None)
         else:
             os.environ["WHATSHAP_VERIF_TRACE"] = old
+    check_readable(out, "phase")
     return out, read_trace(tpath)
+
+
+def check_readable(path, what):
+    """a VCF written by the code under test must at least be parseable by htslib"""
+    from vlib.harness import OutputError
+    try:
+        with pysam.VariantFile(path) as vf:
+            for rec in vf:
+                for call in rec.samples.values():
+                    for k in rec.format.keys():
+                        call[k]
+    except Exception as e:
+        tail = ""
+        try:
+            with open(path, errors="replace") as f:
+                tail = f.read()[-400:]
+        except Exception:
+            pass
+        raise OutputError(what + ":output-unreadable", "htslib cannot parse the output VCF (%s: %s); end of file: %r" % (type(e).__name__, e, tail))
 
 
 def decode_phasing(path):
